@@ -138,6 +138,9 @@ class Query:
         return r, dt
 
 
+_UNKNOWN_STREAK = 0
+
+
 def prove(oid, conds, goal, timeout_s, witness_vars=None, extra=(), instantiate=True, vacuity=True, replay=None, note=None, pairwise=True, tactic=None, deep_gen=1):
     """Discharge one obligation. Returns a result record.
 
@@ -145,10 +148,16 @@ def prove(oid, conds, goal, timeout_s, witness_vars=None, extra=(), instantiate=
     replay: (kind, builder) where builder(values: dict) -> inputs dict for
             the concrete replay of that kind (see replay.py); or None.
     """
+    # after three undecided obligations in a row inside one job the remaining ones get a short cap: on a tree where the
+    # property holds nothing is undecided, so this only shortens runs that are already inconclusive or violated
+    global _UNKNOWN_STREAK
+    if _UNKNOWN_STREAK >= 3:
+        timeout_s = min(timeout_s, 10)
     try:
         r, dt, m, s = Query.solve(conds, goal, timeout_s, extra=extra, instantiate=instantiate, pairwise=pairwise, tactic=tactic, deep_gen=deep_gen)
     except z3.Z3Exception as e:
         return rec(oid, "error", 0.0, detail=f"z3: {e}")
+    _UNKNOWN_STREAK = _UNKNOWN_STREAK + 1 if r == "unknown" else 0
     # CEGAR: a model fixes arbitrary values for the uninterpreted functions; refine with true
     # point / half-space lemmas at the model's argument values and re-solve
     rounds = 0
@@ -228,6 +237,8 @@ def _run_job(payload):
             f.write(f"{os.getpid()} start {name}\n")
     from . import sym
 
+    global _UNKNOWN_STREAK
+    _UNKNOWN_STREAK = 0
     Query.count = 0
     Query.time = 0.0
     Query.axiom_names = set()
